@@ -8,6 +8,7 @@ R19.1  document mapping keys are normalised before type-sensitive use: a key obt
 R19.2  sibling call sites agree: path-level and operation-level parameters are parsed with the same naming context
        (otherwise the name of a promoted inline schema depends on where / in which order it is declared)
 R19.3  response selection does not depend on the order of the `responses` mapping  [= R5.1 normal form]
+R19.10 sibling inline property schemas get distinct invented names: a name without the parent prefix only under a test of the sibling keys
 R19.9  names invented for inline schemas derive from the enclosing named context, not from a constant numbered in encounter order  [finding on the pinned tree]
 R19.8  references find an already registered schema by its declared name (raw-name index): no order-dependent second parse        [= R2.15]
 R19.7  a memo table kept on the parsing context is keyed by every parameter the stored conversion depends on (no first-caller-wins entries)
@@ -75,6 +76,7 @@ def run(repo: Repo, rep: Report, tier: str) -> None:
 
     rule_raw_name_index(repo, rep, "R19.8")
     rule_invented_names_are_order_free(repo, rep, "R19.9")
+    rule_sibling_names_are_distinct(repo, rep, "R19.10")
     strict = _strict_params(repo)
     rep.count("R19.1:type_strict_parser_parameters", {k: sorted(v) for k, v in strict.items()})
     # ---------------------------------------------------------------- R19.1
@@ -378,3 +380,90 @@ def rule_invented_names_are_order_free(repo: Repo, rep, rule: str = "R19.9") -> 
             else:
                 rep.ok(rule, sub, "the base of the invented name comes from the enclosing named context", fn.loc(w))
     rep.require(n >= 1, f"{rule}: no name-counting loop over parsed_schemas found in schema_parser (anchor)")
+
+
+# ------------------------------------------------------------------------------------------------ R19.10 sibling properties get different invented names
+def rule_sibling_names_are_distinct(repo: Repo, rep, rule: str = "R19.10") -> None:
+    """An inline property schema that becomes a schema of its own (inline object, inline enum) is registered under a name invented from the
+    parent schema's name and the property key.  `<Parent><Prop>` is one name per property; a form that *drops the parent prefix* when the
+    key already starts with it (`Entry` + `entry_status` -> `EntryStatus`) collides with the sibling `status` (`Entry` + `status`), and the
+    registry then hands the schema parsed first to both properties: which of the two inline schemas survives depends on the order of the
+    `properties` block.  A prefix-less alternative is accepted only under a condition that looks at the sibling keys (the properties
+    mapping itself), or where there is no parent name at all."""
+    from sa.cfg import CFG, guards
+    from rules._memo import name_closure
+
+    pp = repo.func("core.parsing.schema_parser:_parse_properties")
+    fn = pp
+    L = Locals(fn.node)
+    loops = [lp for lp in own_nodes(fn.node) if isinstance(lp, ast.For) and isinstance(lp.target, ast.Tuple) and len(lp.target.elts) == 2
+             and isinstance(lp.iter, ast.Call) and isinstance(lp.iter.func, ast.Attribute) and lp.iter.func.attr == "items" and isinstance(lp.iter.func.value, ast.Name)
+             and L.is_param(lp.iter.func.value.id)]
+    if not loops or len(fn.params) < 2:
+        raise AnalysisError(f"{rule}: the loop over `<properties>.items()` of _parse_properties was not found (anchor)")
+    lp = loops[0]
+    mapping = lp.iter.func.value.id
+    key = lp.target.elts[0].id if isinstance(lp.target.elts[0], ast.Name) else None
+    parent = next((p for p in fn.params if "parent" in p and "name" in p), None)
+    if key is None or parent is None:
+        raise AnalysisError(f"{rule}: property key / parent name parameter of _parse_properties not identified (anchor)")
+    # names handed to _parse_schema as the schema's name
+    calls = [c for c in calls_in(lp) if isinstance(c.func, ast.Name) and c.func.id == "_parse_schema" and c.args]
+    name_vars = set()
+    for c in calls:
+        name_vars |= {x.id for x in ast.walk(c.args[0]) if isinstance(x, ast.Name)}
+    # ... and the names a conditional expression selects between (`name = None if simple else contextual_name`); intermediate pieces
+    # (`sanitized = sanitize(key)`) are judged where they are made the name (inlined into that statement)
+    grew = True
+    while grew:
+        grew = False
+        for _, v, _ in [d for nm in list(name_vars) for d in L.defs.get(nm, [])]:
+            if isinstance(v, ast.IfExp):
+                for b in (v.body, v.orelse):
+                    if isinstance(b, ast.Name) and b.id not in name_vars:
+                        name_vars.add(b.id)
+                        grew = True
+    name_vars = {v for v in name_vars if v not in fn.params and v != key}
+    cfg = CFG(fn.node)
+    dom = cfg.dominators()
+    n = 0
+    bad = []
+
+    def mentions(e: ast.AST, name: str) -> bool:
+        ei = L.inline(e, stop=tuple(L.params) + (key,))
+        return any(isinstance(x, ast.Name) and x.id == name for x in ast.walk(ei))
+
+    for nd in cfg.nodes:
+        st = nd.ast
+        if nd.kind != "stmt" or nd.copy or not (isinstance(st, ast.Assign) and len(st.targets) == 1 and isinstance(st.targets[0], ast.Name) and st.targets[0].id in name_vars):
+            continue
+        v = st.value
+        if isinstance(v, ast.Constant) and v.value is None:
+            continue
+        if isinstance(v, ast.IfExp):
+            continue  # a selection between other invented names (each judged where it is built)
+        if not mentions(v, key):
+            continue
+        if any(isinstance(c, ast.Call) and isinstance(c.func, ast.Name) and c.func.id == "id" for c in ast.walk(L.inline(v, stop=tuple(L.params) + (key,)))):
+            continue  # made unique by the identity of the node
+        n += 1
+        if mentions(v, parent):
+            continue
+        # prefix-less: acceptable without a parent name, or under a test that scans the sibling keys
+        gs = [(g, pol) for g, pol in guards(cfg, nd.id, dom) if g.kind == "test" and pol is not None]
+        no_parent = any((pol is False and norm(g.ast) == parent) or (pol is True and norm(g.ast) in (f"not {parent}", f"{parent} is None")) for g, pol in gs)
+        scans = any(pol is True and any(isinstance(x, ast.comprehension) and any(isinstance(y, ast.Name) and y.id == mapping for y in ast.walk(x.iter))
+                                        for x in ast.walk(g.ast)) for g, pol in gs)
+        if not (no_parent or scans):
+            bad.append(st)
+    rep.count(f"{rule}:invented_name_definitions", n)
+    rep.require(n >= 3, f"{rule}: only {n} definitions of invented schema names found in _parse_properties (floor 3)")
+    sub = f"{pp.module.relpath}:_parse_properties names invented for inline property schemas"
+    if bad:
+        st = bad[0]
+        rep.violation(rule, sub, f"{pp.fq}|prefixless-name-without-sibling-test|{st.targets[0].id}",
+                      f"`{norm(st)[:70]}`: the parent prefix is dropped without looking at the sibling properties - `<Parent>_x` and `x` of one object get the same "
+                      "invented name, the registry serves the schema parsed first to both, and reordering the properties changes which inline schema survives "
+                      "(the other property is typed with the wrong model / enum)", fn.loc(st))
+    else:
+        rep.ok(rule, sub, f"{n} definition(s): every name carries the parent prefix, or drops it only after checking the sibling keys", fn.loc())
